@@ -383,3 +383,22 @@ package spec
 //@   loop[0] invariant forall k int :: {lhs[k]} 0 <= k && k < __i0 ==> has(rhs, lhs[k])
 //@   loop[1] invariant subSet(lhs, rhs) && (forall k int :: {rhs[k]} 0 <= k && k < __i1 ==> has(lhs, rhs[k]))
 //@   ensures @set-equality result == (subSet(lhs, rhs) && subSet(rhs, lhs))
+
+// hashStrings: the hash of a list of alternatives is the fold of the hasher over the alternatives IN SORTED ORDER,
+// hence independent of the order in which they were written (eqStrings compares lists as sets); the caller's list
+// is only reordered - no alternative is dropped, added or overwritten.
+//@ import "github.com/moorara/algo/sort"
+//@ ghost func hfold(s Strings, k int) int
+//@ axiom forall s Strings :: {hfold(s, 0)} hfold(s, 0) == hinit()
+//@ axiom forall s Strings, k int :: {hfold(s, k)} k > 0 ==> hfold(s, k) == hstep(hfold(s, k - 1), s[k - 1])
+// strsSorted(a): a is sorted by grammar.CmpString (A-SORT: what sort.Quick establishes for the slice it is given)
+//@ ghost func strsSorted(a Strings) bool
+//@ func hashStrings(s Strings) uint64
+//@   requires h != nil
+//@   callsite Quick assumes @A-SORT strsSorted(arg0)
+//@   modifies s, h.st
+//@   loop[0] invariant h.st == hfold(s, __i0)
+//@   ensures @only-reordered len(s) == len(old(s)) && (forall i int :: {s[i]} 0 <= i && i < len(s) ==> (exists j int :: 0 <= j && j < len(s) && s[i] == old(s)[j]))
+//@     && (forall j int :: {old(s)[j]} 0 <= j && j < len(s) ==> (exists i int :: 0 <= i && i < len(s) && s[i] == old(s)[j]))
+//@   ensures @sorted-before-hashing strsSorted(s)
+//@   ensures @hash-of-sorted result == hsum(hfold(s, len(s)))
